@@ -102,7 +102,11 @@ macro_rules! dispatch {
                 $body
             }
             "C01g" => {
-                let $p = &props::giant::C01g;
+                let $p = &props::giant::Giant { c04: false };
+                $body
+            }
+            "C04g" => {
+                let $p = &props::giant::Giant { c04: true };
                 $body
             }
             "C11" => {
@@ -137,7 +141,7 @@ macro_rules! dispatch {
 fn components(property: &str) -> Vec<&'static str> {
     match property {
         "C01" => vec!["C01", "C01g"],
-        "C04" => vec!["C04"],
+        "C04" => vec!["C04", "C04g"],
         "C02" => vec!["C02", "C02m"],
         "C08" => vec!["C08"],
         "C09" => vec!["C09p", "C09r"],
@@ -934,7 +938,7 @@ fn hang_check(comp: &str) -> Option<&'static str> {
     match comp {
         "C01" | "C01g" => Some("C01.hang"),
         "C02" | "C02m" => Some("C02.hang"),
-        "C04" => Some("C04.hang"),
+        "C04" | "C04g" => Some("C04.hang"),
         "C08" => Some("C08.hang"),
         "C09p" | "C09r" => Some("C09.hang"),
         "C10" | "C10r" => Some("C10.hang"),
